@@ -230,7 +230,7 @@ def run(ctx):
     ctx.sample({"enabled": names_of(10), "handlers_for": [chr(c) for c, _ in tabs[10][0] if c > 32]})
     # ---- (B) inertness on the implementation: every document under every subset of the six switches
     ext_lines = ["~~a~~", "a ~b~ c", "- [ ] t", "- [x] u", "[ ] v", "www.a.com", "see http://a.b/c d", "x@y.zz", "mailto:x@y.zz", "hello <title> w", "<script>\nx\n</script>",
-                 "<!-- pyml disable-next-line md001-->", "<!-- pyml disable md009-->", "---", "a: b", "hm xw ww. htt", "what maxim exhumes",
+                 "<!-- pyml disable-next-line md001-->", "<!-- pyml disable md009-->", "<!--- pyml disable-next-line md019-->", "<!--- pyml disable-num-lines 2 md009-->", "---", "a: b", "hm xw ww. htt", "what maxim exhumes",
                  # runs of the extensions' trigger characters that form none of their constructs, followed by a positioned inline element
                  "<div>", "</div>", "if a <b<c then stop", "x <a<b y <c", "<<a <b", "aww *e*", "swwweet `c`", "ewww [l](/u)", "hhttp *e*", "mmm xx `c`", "a ~ b *e*", "wwww ![i](/u) <b>"]
     docs = list(gen.POOL) + list(gen.d_line(gen.V_ALL, 1)) + list(gen.d_line(ext_lines, 2, final_newline=(True,)))
